@@ -1,6 +1,7 @@
 import Heph.Spec.Typing
 import Heph.Model.CondType
 import Heph.Model.GenVar
+import Heph.Model.GenFuncRef
 import Heph.Props.C06
 import Heph.Proofs.CheckSound
 import Heph.Proofs.CheckSubD
@@ -359,6 +360,170 @@ example :
       = ["a", "b"] ∧
     (genVariableCandidates [] [⟨"a", longK, true, true⟩, ⟨"b", floatK, false, true⟩] floatK false false).map (·.name)
       = ["b"] := by
+  decide
+
+/-! ## 5. Decision points `_is_sigtype_compatible`, `_gen_func_call_ref`, `_gen_func_ref`:
+       which declarations and variables of function type may be referenced -/
+
+private theorem ofBool_yes (b : Bool) : Res.ofBool b = .yes ↔ b = true := by
+  cases b <;> simp [Res.ofBool]
+
+/-- **what a yes of `_is_sigtype_compatible` means**, branch by branch: the attribute type under
+    the type-variable map is `is_assignable` to the expected type (`subtype`), `==` to it (no
+    `subtype`), or — when a signature is checked — the expected type `==` the function type built
+    from the substituted parameter types and the attribute type. -/
+theorem sigtypeCompatible_sound (extra : List (String × String)) (a : AttrSig) (etype : Ty) (m : TMap)
+    (checkSig sub : Bool) (mode : AttrMode) (h : sigtypeCompatible extra a etype m checkSig sub mode = .yes) :
+    ∃ aty, attrTypeOf mode a m = some aty ∧
+      (checkSig = false → sub = true → isAssignable extra aty etype = .yes) ∧
+      (checkSig = false → sub = false → beq aty etype = true) ∧
+      (checkSig = true → beq etype (mkP a.fnCon (a.params.map (fun p => substituteType p m) ++ [aty])) = true) := by
+  unfold sigtypeCompatible at h
+  cases hat : attrTypeOf mode a m with
+  | none => rw [hat] at h; cases h
+  | some aty =>
+    rw [hat] at h
+    refine ⟨aty, rfl, ?_, ?_, ?_⟩
+    · intro hc hs; subst hc; subst hs; simpa using h
+    · intro hc hs; subst hc; subst hs; exact (ofBool_yes _).1 (by simpa using h)
+    · intro hc; subst hc; exact (ofBool_yes _).1 (by simpa [sigOf] using h)
+
+/-- in the default mode the attribute type is the declared type under `substitute_type`; in the
+    mode of `_get_matching_objects(func_ref=True, signature=False)` it is the last type argument
+    (the return type) of the substituted function type -/
+theorem attrTypeOf_whole (a : AttrSig) (m : TMap) : attrTypeOf .whole a m = some (substituteType a.ty m) := rfl
+
+theorem attrTypeOf_lastArg (a : AttrSig) (m : TMap) (aty : Ty) (h : attrTypeOf .lastArg a m = some aty) :
+    ∃ nm con args ss, substituteType a.ty m = param nm con args ss ∧ args.getLast? = some aty := by
+  unfold attrTypeOf at h
+  cases hs : substituteType a.ty m <;> simp only [hs, typeArgs, List.getLast?_nil] at h <;> try cases h
+  exact ⟨_, _, _, _, rfl, h⟩
+
+/-- …hence, for well-formed types, an attribute accepted with `subtype` has a type that is a
+    declarative subtype of the expected type (`SubT`, C06), or a pair of the numeric-widening table,
+    or two Java arrays of one primitive element type (`assignable_sound`). -/
+theorem sigtypeCompatible_assignable (extra : List (String × String)) (a : AttrSig) (etype : Ty) (m : TMap)
+    (h : sigtypeCompatible extra a etype m false true .whole = .yes)
+    (hs : wf (substituteType a.ty m) = true) (ht : wf etype = true) :
+    SubT (univ [substituteType a.ty m, etype]) (substituteType a.ty m) etype ∨
+    (∃ c nm nt p ss c' nm' nt' p' ss', substituteType a.ty m = builtin c nm nt p ss ∧
+      etype = builtin c' nm' nt' p' ss' ∧ (c, c') ∈ extra) ∨
+    (∃ nm con x xs ss nm' con' y ys ss', substituteType a.ty m = param nm con (x :: xs) ss ∧
+      etype = param nm' con' (y :: ys) ss' ∧ isJavaArrayCon con = true ∧ isJavaArrayCon con' = true ∧
+      beq x y = true ∧ x.isPrim = true ∧ y.isPrim = true) := by
+  obtain ⟨aty, hat, h1, _, _⟩ := sigtypeCompatible_sound extra a etype m false true .whole h
+  cases hat
+  exact Heph.Props.C06.assignable_sound extra _ etype hs ht (h1 rfl rfl)
+
+/-- **`_gen_func_call_ref`, first stage**: every reference offered without receiver is a variable
+    in scope whose type is a function type and whose return type (last type argument) is
+    `is_assignable` to the expected type (with `subtype`) or `==` to it; inside a Java lambda it is
+    final or local to the lambda. -/
+theorem funcCallRef_sound (extra : List (String × String)) (vars : List VarInfo) (etype : Ty) (sub jl : Bool)
+    (c : FuncRefCand) (h : c ∈ funcCallRefVars extra vars etype sub jl) :
+    ∃ v ∈ vars, c.sig = v.ty ∧ c.name = v.name ∧ c.noReceiver = true ∧ isFunctionType v.ty = true ∧
+      (∃ ret, (typeArgs v.ty).getLast? = some ret ∧
+        ((sub = true ∧ isAssignable extra ret etype = .yes) ∨ beq ret etype = true)) ∧
+      (jl = true → v.final = true ∨ v.outer = false) := by
+  simp only [funcCallRefVars, List.mem_map, List.mem_filter] at h
+  obtain ⟨v, ⟨hv, hk⟩, rfl⟩ := h
+  refine ⟨v, hv, rfl, rfl, rfl, ?_⟩
+  simp only [funcCallRefKeeps, Bool.and_eq_true, Bool.or_eq_true, Bool.not_eq_true'] at hk
+  obtain ⟨⟨hj, hf⟩, hr⟩ := hk
+  refine ⟨hf, ?_, ?_⟩
+  · cases hl : (typeArgs v.ty).getLast? with
+    | none => rw [hl] at hr; cases hr
+    | some ret =>
+      rw [hl] at hr
+      refine ⟨ret, rfl, ?_⟩
+      simp only [Bool.or_eq_true, Bool.and_eq_true] at hr
+      rcases hr with ⟨hs, ha⟩ | hb
+      · exact Or.inl ⟨hs, (res_beq_yes _).1 ha⟩
+      · exact Or.inr hb
+  · intro hj'; subst hj'
+    rcases hj with (hj | hj) | hj
+    · cases hj
+    · exact Or.inl hj
+    · exact Or.inr hj
+
+/-- the list the random choice draws from: the variables when one qualifies, otherwise the
+    objects `_get_matching_objects` found, each with the field's type under the receiver's map -/
+theorem funcCallRef_candidates (extra : List (String × String)) (vars : List VarInfo) (objs : List MatchedObj)
+    (etype : Ty) (sub jl : Bool) (c : FuncRefCand) (h : c ∈ funcCallRefCandidates extra vars objs etype sub jl) :
+    c ∈ funcCallRefVars extra vars etype sub jl ∨
+    (funcCallRefVars extra vars etype sub jl = [] ∧
+      ∃ o ∈ objs, c.sig = substituteType o.attrTy o.inst ∧ c.name = o.name ∧ c.noReceiver = false) := by
+  unfold funcCallRefCandidates at h
+  by_cases he : (funcCallRefVars extra vars etype sub jl).isEmpty = true
+  · simp only [he, if_true, List.mem_map] at h
+    obtain ⟨o, ho, rfl⟩ := h
+    exact Or.inr ⟨List.isEmpty_iff.1 he, o, ho, rfl, rfl, rfl⟩
+  · simp only [he] at h
+    exact Or.inl h
+
+/-- **the refinement checked on every recorded call of `_gen_func_call_ref`**: a returned call is
+    to a member of the list, and its arguments were generated at the parameter types
+    `signature.type_args[:-1]` of that member; `None` is returned only when nothing qualifies -/
+theorem funcCallRef_refines_call (same : List Ty → List Ty → Bool) (extra : List (String × String))
+    (vars : List VarInfo) (objs : List MatchedObj) (etype : Ty) (sub jl : Bool) (n : String) (nr : Bool)
+    (tys : List Ty) (h : funcCallRefRefines same extra vars objs etype sub jl (.call n nr tys) = true) :
+    ∃ c ∈ funcCallRefCandidates extra vars objs etype sub jl,
+      c.name = n ∧ c.noReceiver = nr ∧ same (typeArgs c.sig).dropLast tys = true := by
+  simp only [funcCallRefRefines, List.any_eq_true, Bool.and_eq_true, beq_iff_eq] at h
+  obtain ⟨c, hc, ⟨h1, h2⟩, h3⟩ := h
+  exact ⟨c, hc, h1, h2, h3⟩
+
+theorem funcCallRef_refines_none (same : List Ty → List Ty → Bool) (extra : List (String × String))
+    (vars : List VarInfo) (objs : List MatchedObj) (etype : Ty) (sub jl : Bool)
+    (h : funcCallRefRefines same extra vars objs etype sub jl .none = true) :
+    (∀ v ∈ vars, funcCallRefKeeps extra etype sub jl v = false) ∧ objs = [] := by
+  unfold funcCallRefRefines funcCallRefCandidates at h
+  by_cases he : (funcCallRefVars extra vars etype sub jl).isEmpty = true
+  · simp only [he, if_true, List.isEmpty_iff, List.map_eq_nil_iff] at h
+    refine ⟨?_, h⟩
+    have := List.isEmpty_iff.1 he
+    simp only [funcCallRefVars, List.map_eq_nil_iff, List.filter_eq_nil_iff] at this
+    intro v hv; simpa using this v hv
+  · simp only [he] at h
+    exact absurd h he
+
+/-- **`_gen_func_ref`**: a reference offered for the signature `etype` is one of the declarations
+    `_get_matching_function_declarations(etype, False, signature=True)` handed over, other than the
+    function being generated; since each of those passed `_is_sigtype_compatible(.., True, False)`
+    under its map `σ`, the expected type `==` the function type of its substituted signature. -/
+theorem funcRef_sound (funcs : List AttrSig) (self : String) (etype : Ty) (σ : AttrSig → TMap)
+    (hcompat : ∀ f ∈ funcs, sigtypeCompatible [] f etype (σ f) true false .whole = .yes)
+    (f : AttrSig) (h : f ∈ funcRefCandidates funcs self) :
+    f ∈ funcs ∧ f.name ≠ self ∧
+      beq etype (mkP f.fnCon (f.params.map (fun p => substituteType p (σ f)) ++ [substituteType f.ty (σ f)])) = true := by
+  simp only [funcRefCandidates, List.mem_filter, bne_iff_ne, ne_eq] at h
+  obtain ⟨hf, hn⟩ := h
+  obtain ⟨aty, hat, _, _, h3⟩ := sigtypeCompatible_sound [] f etype (σ f) true false .whole (hcompat f hf)
+  cases hat
+  exact ⟨hf, hn, h3 rfl⟩
+
+private def fn1K : Ty :=
+  tcon "<class 'src.ir.kotlin_types.FunctionType'>" "Function1" [tparam "A1" 2 none, tparam "R" 1 none] [anyK]
+private def stringK : Ty := builtin "<class 'src.ir.kotlin_types.StringType'>" "String" false false [anyK]
+private def tT : Ty := tparam "T" 0 none
+
+/-- the hypotheses are satisfiable and the filters bite: of `f : (Long) -> Float`, `g : (Long) ->
+    String` and `n : Long`, a `Number` position is offered the call `f(..)` only, with one argument
+    expected at `Long`; an exact `Float` position the same; a `String` position `g`; and a function
+    `fun h(x: T): T` matches the signature `(Long) -> Long` under `T ↦ Long` but not under `T ↦ Float` -/
+example :
+    ((funcCallRefCandidates [] [⟨"f", mkP fn1K [longK, floatK], true, true⟩,
+        ⟨"g", mkP fn1K [longK, stringK], true, true⟩, ⟨"n", longK, true, true⟩] [] numK true false).map (·.name)
+      = ["f"]) ∧
+    ((funcCallRefCandidates [] [⟨"f", mkP fn1K [longK, floatK], true, true⟩,
+        ⟨"g", mkP fn1K [longK, stringK], true, true⟩] [] numK false false).map (·.name) = []) ∧
+    ((funcCallRefCandidates [] [⟨"f", mkP fn1K [longK, floatK], true, true⟩,
+        ⟨"g", mkP fn1K [longK, stringK], true, true⟩] [] stringK false false).map (·.name) = ["g"]) ∧
+    funcCallRefRefines (fun a b => beqL a b) [] [⟨"f", mkP fn1K [longK, floatK], true, true⟩] [] numK true false
+      (.call "f" true [longK]) = true ∧
+    sigtypeCompatible [] ⟨"h", tT, [tT], fn1K⟩ (mkP fn1K [longK, longK]) [(tT, longK)] true false .whole = .yes ∧
+    sigtypeCompatible [] ⟨"h", tT, [tT], fn1K⟩ (mkP fn1K [longK, longK]) [(tT, floatK)] true false .whole = .no ∧
+    sigtypeCompatible [] ⟨"fld", mkP fn1K [longK, floatK], [], fn1K⟩ numK [] false true .lastArg = .yes := by
   decide
 
 end Heph.Props.C01
